@@ -543,7 +543,8 @@ def main():
         # or failed; distinct by (kind, use, options, size)
         nontrivial.add((s["kind"], s["use"], s["opt"], s["size"]))
         if s["counted"]:
-            if s["kind"] == "shared":
+            # (with --threads=1 wild always unlinks the old output first, whatever the mode)
+            if s["kind"] == "shared" and "--threads=1" not in s["flags"]:
                 probe_total += 1
                 if any(k == "old-inode-modified" for k, _ in sym) and \
                         any(k == "process-affected" for k, _ in sym):
